@@ -213,7 +213,7 @@ func (st *c06State) check(cs *c06Case) {
 	rx, ry, rot := b32f(cs.RX), b32f(cs.RY), b32f(cs.Rot)
 	x1, y1, x, y := b32f(cs.X1), b32f(cs.Y1), b32f(cs.X), b32f(cs.Y)
 	var z render.Renderer
-	st.ras.ResetLog()
+	st.ras.Fresh()
 	if cs.LA == cs.SW {
 		z.SetRasterizer(&st.ras, rect)
 		z.Reset(vb, ivg.DefaultPalette)
@@ -249,6 +249,9 @@ func (st *c06State) check(cs *c06Case) {
 	default:
 		// an earlier path of the graphic is not drawn (outside its level-of-detail range) and
 		// contains a relative arc
+		z.StartPath(0, x1+3, y1+3) // (a drawn path first, so that the pen is somewhere else)
+		z.AbsLineTo(x1+4, y1+5)
+		z.ClosePathEndPath()
 		z.SetLOD(10000, 20000)
 		z.StartPath(0, x1+1, y1-1)
 		z.RelArcTo(2, 3, 0.2, true, false, 3, 1)
